@@ -105,7 +105,7 @@ def roundtrip(arg):
                                  ft=m.get("first_time", -1), fe=m.get("first_endtime", -1), lt=m.get("last_time", -1),
                                  le=m.get("last_endtime", -1), file=bool(m.get("filename") in files)) for m in meta["chunks"]],
                     start=meta.get("start", -1), end=meta.get("end", -1), ended="writing_ended" in meta, exc="exception" in meta),
-            rechunk=target_rows is not None, itemsize=dt.itemsize, same=same, run="0")
+            rechunk=target_rows is not None, itemsize=dt.itemsize, same=same, run="0", srcok=True)
         out["stray"] = sorted(f for f in files if f.endswith("_temp"))
     except Exception as e:  # noqa
         out["err"] = f"{type(e).__name__}: {e}"[:200]
